@@ -11,6 +11,14 @@ import os
 import sys
 
 pid = sys.argv[1]
+# optional second argument "w5": the wave-5 wording, which steers away from the patterns that dominated waves 1-4
+extra = ""
+if len(sys.argv) > 2 and sys.argv[2] == "w5":
+    extra = ("Do NOT use these over-familiar patterns unless the site is truly unusual: state left on a reader / writer object that is used twice; "
+             "a memo / cache whose key is too coarse; a set() that makes an order depend on hashing; grouping by key instead of by run. "
+             "Go instead for arithmetic and boundary slips, unit or axis mix-ups, changed regular expressions, reordered or weakened conditions, wrong defaults, "
+             "mishandled optional / empty fields, off-by-one in indexes or slices, a helper applied at the wrong level (per line vs per caption vs per set), "
+             "an early return or a `break` / `continue` in the wrong place, string handling of unusual but legal characters. ")
 VERIF = os.path.dirname(os.path.dirname(os.path.abspath(__file__)))
 p = [json.loads(l) for l in open(os.path.join(VERIF, "properties.jsonl")) if json.loads(l)["id"] == pid][0]
 q = p.get("quantifier", {})
@@ -30,7 +38,7 @@ Your task: produce THREE different, independent, realistic source changes to the
      (the unmodified tree gives "217 passed" plus 2 pre-existing collection errors in tests/test_dfxp.py and tests/test_geometry.py - that is the baseline to match exactly),
   3. looks like a plausible mistake or careless refactoring a developer could really commit (an off-by-one, a wrong operand, a dropped copy, a cached / hoisted container, a reordered condition, a changed regex, a boundary comparison, state that is not reset, ...), not sabotage that announces itself,
   4. needs SOMETHING SPECIFIC to manifest: an unusual input (a boundary value, a particular character or spelling, a particular combination of fields), a multi-step sequence of operations, a second use of an object, a particular ordering, or two cooperating sites that each look fine alone. Ordinary everyday use (the typical happy path a smoke test would run) should still behave correctly, so that the breakage would not be noticed at once.
-The three changes should affect different mechanisms / code sites (ideally different files); where the property allows, spread them: one on the side that parses / reads, one on the side that writes / converts, one in shared machinery (base classes, value objects, helpers, state kept on objects or modules). Prefer less obvious sites: look beyond the first function that comes to mind - state kept between calls, rarely taken branches, interactions between two features, boundary values deep inside helper functions.
+The three changes should affect different mechanisms / code sites (ideally different files); where the property allows, spread them: one on the side that parses / reads, one on the side that writes / converts, one in shared machinery (base classes, value objects, helpers, state kept on objects or modules). {extra}Prefer less obvious sites: look beyond the first function that comes to mind - state kept between calls, rarely taken branches, interactions between two features, boundary values deep inside helper functions.
 
 For each change i in (1, 2, 3) deliver, inside /tmp/wt_{pid}/_out/ :
   - patch{{i}}.diff   : `git diff` of the change against the pristine checkout (apply-able with `git apply` at the repository root; only files under pycaption/),
